@@ -1,6 +1,9 @@
 import RP.Model.Kmeans
 import RP.Lemmas.ArithReal
 import RP.Lemmas.Hist
+import RP.Lemmas.MetricReal
+import Mathlib.Tactic.Ring
+import Mathlib.Tactic.Linarith
 import Mathlib.Order.Defs.LinearOrder
 set_option linter.unusedSimpArgs false
 /-! # C13 — a k-means step assigns every point to its nearest centroid and conserves mass
@@ -442,6 +445,432 @@ theorem C13_lookup_spec {ι : Type} (street : Nat) (cmp : β → β → Option O
     exact List.Forall₂.get hF hi3 hi2
 
 end next
+
+/-! ## derived metric -/
+section metric
+variable {κ α : Type} [Arith α]
+
+theorem mapInsert_keys (k : Nat) (v : α) (l : List (Nat × α)) :
+    ∀ e ∈ mapInsert k v l, e.1 = k ∨ e ∈ l := by
+  induction l with
+  | nil => intro e he; simp [mapInsert] at he; left; rw [he]
+  | cons x xs ih =>
+    obtain ⟨k', v'⟩ := x
+    intro e he
+    unfold mapInsert at he
+    split at he
+    · rcases List.mem_cons.mp he with rfl | he
+      · left; rfl
+      · right; simp [he]
+    · split at he
+      · rcases List.mem_cons.mp he with rfl | he
+        · left; rfl
+        · right; exact he
+      · rcases List.mem_cons.mp he with rfl | he
+        · right; simp
+        · rcases ih e he with h | h
+          · left; exact h
+          · right; simp [h]
+
+theorem mapInsert_sorted (k : Nat) (v : α) (l : List (Nat × α)) (hs : SortedKeys l) :
+    SortedKeys (mapInsert k v l) := by
+  induction l with
+  | nil => simp [mapInsert, SortedKeys]
+  | cons x xs ih =>
+    obtain ⟨k', v'⟩ := x
+    unfold SortedKeys at hs ⊢
+    rw [List.pairwise_cons] at hs
+    unfold mapInsert
+    split
+    · rename_i hkk; subst hkk
+      rw [List.pairwise_cons]; exact ⟨fun e he => hs.1 e he, hs.2⟩
+    · split
+      · rename_i hlt
+        rw [List.pairwise_cons]
+        refine ⟨?_, by rw [List.pairwise_cons]; exact hs⟩
+        intro e he
+        rcases List.mem_cons.mp he with rfl | he
+        · exact hlt
+        · exact Nat.lt_trans hlt (hs.1 e he)
+      · rename_i hne hnlt
+        rw [List.pairwise_cons]
+        refine ⟨?_, ih hs.2⟩
+        intro e he
+        rcases mapInsert_keys k v xs e he with h | h
+        · show k' < e.1; omega
+        · exact hs.1 e h
+
+theorem mapInsert_lookup (k : Nat) (v : α) (l : List (Nat × α)) (hs : SortedKeys l) (a : Nat) :
+    (mapInsert k v l).lookup a = if a = k then some v else l.lookup a := by
+  induction l with
+  | nil =>
+    by_cases h : a = k
+    · simp [mapInsert, h]
+    · have : (a == k) = false := by simpa using h
+      simp [mapInsert, h, List.lookup_cons, this]
+  | cons x xs ih =>
+    obtain ⟨k', v'⟩ := x
+    unfold SortedKeys at hs
+    rw [List.pairwise_cons] at hs
+    unfold mapInsert
+    split
+    · rename_i hkk; subst hkk
+      by_cases h : a = k
+      · subst h; simp [List.lookup_cons]
+      · have : (a == k) = false := by simpa using h
+        simp [List.lookup_cons, this, h]
+    · rename_i hne
+      split
+      · by_cases h : a = k
+        · subst h; simp [List.lookup_cons]
+        · have : (a == k) = false := by simpa using h
+          simp only [List.lookup_cons, this, h, if_false]
+      · by_cases hak' : a = k'
+        · subst hak'
+          have h1 : a ≠ k := fun h => hne h.symm
+          simp [List.lookup_cons, h1]
+        · have h2 : (a == k') = false := by simpa using hak'
+          simp only [List.lookup_cons, h2]
+          exact ih hs.2
+
+theorem mapInsert_length (k : Nat) (v : α) (l : List (Nat × α)) (hs : SortedKeys l)
+    (hnone : l.lookup k = none) : (mapInsert k v l).length = l.length + 1 := by
+  induction l with
+  | nil => simp [mapInsert]
+  | cons x xs ih =>
+    obtain ⟨k', v'⟩ := x
+    unfold SortedKeys at hs
+    rw [List.pairwise_cons] at hs
+    have hne : k ≠ k' := by
+      intro h; subst h; simp [List.lookup_cons] at hnone
+    have hb : (k == k') = false := by simpa using hne
+    simp only [List.lookup_cons, hb] at hnone
+    unfold mapInsert
+    simp only [hne, if_false]
+    split
+    · simp
+    · simp [ih hs.2 hnone]
+
+/-- folding `BTreeMap::insert` over items with pairwise distinct, fresh keys -/
+theorem foldIns_spec (es acc : List (Nat × α)) (hs : SortedKeys acc)
+    (hnd : (es.map Prod.fst).Nodup) (hdis : ∀ e ∈ es, acc.lookup e.1 = none) :
+    let res := es.foldl (fun acc e => mapInsert e.1 e.2 acc) acc
+    SortedKeys res ∧ res.length = acc.length + es.length ∧
+      (∀ e ∈ es, res.lookup e.1 = some e.2) ∧
+      (∀ a, (∀ e ∈ es, e.1 ≠ a) → res.lookup a = acc.lookup a) := by
+  induction es generalizing acc with
+  | nil => simp [hs]
+  | cons x xs ih =>
+    obtain ⟨k, v⟩ := x
+    simp only [List.map_cons, List.nodup_cons] at hnd
+    have hs' := mapInsert_sorted k v acc hs
+    have hdis' : ∀ e ∈ xs, (mapInsert k v acc).lookup e.1 = none := by
+      intro e he
+      rw [mapInsert_lookup k v acc hs]
+      have : e.1 ≠ k := fun h => hnd.1 (h ▸ List.mem_map_of_mem he)
+      simp only [this, if_false]
+      exact hdis e (by simp [he])
+    obtain ⟨h1, h2, h3, h4⟩ := ih (mapInsert k v acc) hs' hnd.2 hdis'
+    simp only [List.foldl_cons]
+    refine ⟨h1, ?_, ?_, ?_⟩
+    · rw [h2, mapInsert_length k v acc hs (hdis (k, v) (by simp))]; simp; omega
+    · intro e he
+      rcases List.mem_cons.mp he with rfl | he
+      · rw [h4 k (fun e he' h => hnd.1 (h ▸ List.mem_map_of_mem he')), mapInsert_lookup k v acc hs]; simp
+      · exact h3 e he
+    · intro a ha
+      rw [h4 a (fun e he => ha e (by simp [he])), mapInsert_lookup k v acc hs]
+      have : a ≠ k := fun h => ha (k, v) (by simp) h.symm
+      simp [this]
+
+/-- the pair key `Layer::metric` files the pair of centroids `(i, j)` under -/
+def keyOf (street i j : Nat) : Nat := pairKey (absCode street i) (absCode street j)
+
+/-- the items the inner loop inserts, in order -/
+def rowItems (street : Nat) (emd : κ → κ → α) (i : Nat) (x : κ) : Nat → List κ → List (Nat × α)
+  | _, [] => []
+  | j, y :: ys => (if i > j then [(keyOf street i j, symDist emd x y)] else []) ++ rowItems street emd i x (j + 1) ys
+
+/-- the items the double loop inserts, in order -/
+def allItems (street : Nat) (emd : κ → κ → α) (all : List κ) : Nat → List κ → List (Nat × α)
+  | _, [] => []
+  | i, x :: xs => rowItems street emd i x 0 all ++ allItems street emd all (i + 1) xs
+
+theorem metricRow_eq (street : Nat) (emd : κ → κ → α) (i : Nat) (x : κ) (j : Nat) (ys : List κ) (acc : List (Nat × α)) :
+    metricRow street emd i x j ys acc =
+      (rowItems street emd i x j ys).foldl (fun acc e => mapInsert e.1 e.2 acc) acc := by
+  induction ys generalizing j acc with
+  | nil => rfl
+  | cons y ys ih =>
+    simp only [metricRow, rowItems, ih, List.foldl_append, keyOf]
+    split <;> rfl
+
+theorem metricRows_eq (street : Nat) (emd : κ → κ → α) (all : List κ) (i : Nat) (xs : List κ) (acc : List (Nat × α)) :
+    metricRows street emd all i xs acc =
+      (allItems street emd all i xs).foldl (fun acc e => mapInsert e.1 e.2 acc) acc := by
+  induction xs generalizing i acc with
+  | nil => rfl
+  | cons x xs ih => simp only [metricRows, allItems, ih, metricRow_eq, List.foldl_append]
+
+theorem rowItems_length (street : Nat) (emd : κ → κ → α) (i : Nat) (x : κ) (j : Nat) (ys : List κ) :
+    (rowItems street emd i x j ys).length = min ys.length (i - j) := by
+  induction ys generalizing j with
+  | nil => simp [rowItems]
+  | cons y ys ih =>
+    simp only [rowItems, List.length_append, ih, List.length_cons]
+    split
+    · simp; omega
+    · simp; omega
+
+theorem allItems_length (street : Nat) (emd : κ → κ → α) (all : List κ) (i : Nat) (xs : List κ)
+    (hK : i + xs.length ≤ all.length) :
+    2 * (allItems street emd all i xs).length + xs.length = 2 * xs.length * i + xs.length * xs.length := by
+  induction xs generalizing i with
+  | nil => simp [allItems]
+  | cons x xs ih =>
+    simp only [List.length_cons] at hK
+    have h := ih (i + 1) (by omega)
+    simp only [allItems, List.length_append, rowItems_length, List.length_cons, Nat.sub_zero]
+    have hmin : min all.length i = i := by omega
+    rw [hmin]
+    have e1 : 2 * xs.length * (i + 1) = 2 * xs.length * i + 2 * xs.length := by ring
+    have e2 : 2 * (xs.length + 1) * i + (xs.length + 1) * (xs.length + 1)
+        = 2 * xs.length * i + 2 * i + xs.length * xs.length + 2 * xs.length + 1 := by ring
+    rw [e2]; rw [e1] at h; omega
+
+theorem rowItems_keys (street : Nat) (emd emd' : κ → κ → α) (i : Nat) (x x' : κ) (j : Nat) (ys : List κ) :
+    (rowItems street emd i x j ys).map Prod.fst = (rowItems street emd' i x' j ys).map Prod.fst := by
+  induction ys generalizing j with
+  | nil => rfl
+  | cons y ys ih =>
+    simp only [rowItems, List.map_append, ih]
+    split <;> rfl
+
+theorem rowItems_mem (street : Nat) (emd : κ → κ → α) (i : Nat) (x : κ) (j0 : Nat) (ys : List κ)
+    (t : Nat) (y : κ) (hy : ys[t]? = some y) (hlt : j0 + t < i) :
+    (keyOf street i (j0 + t), symDist emd x y) ∈ rowItems street emd i x j0 ys := by
+  induction ys generalizing j0 t with
+  | nil => simp at hy
+  | cons y0 ys ih =>
+    cases t with
+    | zero =>
+      simp only [List.getElem?_cons_zero, Option.some.injEq] at hy
+      subst hy
+      have : i > j0 := by omega
+      simp [rowItems, this]
+    | succ t =>
+      simp only [List.getElem?_cons_succ] at hy
+      have := ih (j0 + 1) t hy (by omega)
+      simp only [rowItems, List.mem_append]
+      right
+      have e : j0 + (t + 1) = j0 + 1 + t := by omega
+      rw [e]; exact this
+
+theorem allItems_mem (street : Nat) (emd : κ → κ → α) (all : List κ) (i0 : Nat) (xs : List κ)
+    (s : Nat) (x y : κ) (j : Nat) (hx : xs[s]? = some x) (hy : all[j]? = some y) (hlt : j < i0 + s) :
+    (keyOf street (i0 + s) j, symDist emd x y) ∈ allItems street emd all i0 xs := by
+  induction xs generalizing i0 s with
+  | nil => simp at hx
+  | cons x0 xs ih =>
+    cases s with
+    | zero =>
+      simp only [List.getElem?_cons_zero, Option.some.injEq] at hx
+      subst hx
+      simp only [allItems, List.mem_append]
+      left
+      have := rowItems_mem street emd i0 x0 0 all j y hy (by omega)
+      simpa using this
+    | succ s =>
+      simp only [List.getElem?_cons_succ] at hx
+      have := ih (i0 + 1) s hx (by omega)
+      simp only [allItems, List.mem_append]
+      right
+      have e : i0 + (s + 1) = i0 + 1 + s := by omega
+      rw [e]; exact this
+
+/-- the keys the inner loop inserts for centroid `i` against `n` centroids starting at index `j` -/
+def rowKeys (street i : Nat) : Nat → Nat → List Nat
+  | _, 0 => []
+  | j, n + 1 => (if i > j then [keyOf street i j] else []) ++ rowKeys street i (j + 1) n
+
+def allKeys (street K : Nat) : Nat → Nat → List Nat
+  | _, 0 => []
+  | i, n + 1 => rowKeys street i 0 K ++ allKeys street K (i + 1) n
+
+/-- the keys inserted by `Layer::metric` over `K` centroids of a street (they do not depend on the
+    centroids themselves): `keyOf street i j` for `j < i < K`, in loop order -/
+def layerKeys (street K : Nat) : List Nat := allKeys street K 0 K
+
+theorem rowItems_keys' (street : Nat) (emd : κ → κ → α) (i : Nat) (x : κ) (j : Nat) (ys : List κ) :
+    (rowItems street emd i x j ys).map Prod.fst = rowKeys street i j ys.length := by
+  induction ys generalizing j with
+  | nil => rfl
+  | cons y ys ih =>
+    simp only [rowItems, rowKeys, List.map_append, ih, List.length_cons]
+    split <;> rfl
+
+theorem allItems_keys (street : Nat) (emd : κ → κ → α) (all : List κ) (i : Nat) (xs : List κ) :
+    (allItems street emd all i xs).map Prod.fst = allKeys street all.length i xs.length := by
+  induction xs generalizing i with
+  | nil => rfl
+  | cons x xs ih =>
+    simp only [allItems, allKeys, List.map_append, ih, rowItems_keys', List.length_cons]
+
+/-- **`Layer::metric`, one entry per unordered pair.** If the pair keys of the `K` centroids do not
+    collide (`layerKeys street K` has no duplicates — C15, and checked exhaustively for the real
+    cluster counts by the harness) then the map built before normalisation has exactly `K(K−1)/2`
+    entries, strictly increasing (hence distinct) keys, and under the key of each pair `j < i`
+    the symmetrised distance `(emd(xᵢ,xⱼ) + emd(xⱼ,xᵢ)) / 2`. -/
+theorem C13_metric_entries (street : Nat) (emd : κ → κ → α) (kmeans : List κ)
+    (hinj : (layerKeys street kmeans.length).Nodup) :
+    2 * (metricRaw street emd kmeans).length = kmeans.length * (kmeans.length - 1) ∧
+    SortedKeys (metricRaw street emd kmeans) ∧
+    ∀ i j x y, kmeans[i]? = some x → kmeans[j]? = some y → j < i →
+      (metricRaw street emd kmeans).lookup (keyOf street i j) = some (symDist emd x y) := by
+  have hnd : ((allItems street emd kmeans 0 kmeans).map Prod.fst).Nodup := by
+    rw [allItems_keys]; exact hinj
+  have hspec := foldIns_spec (allItems street emd kmeans 0 kmeans) [] (by simp [SortedKeys]) hnd
+    (fun e _ => rfl)
+  simp only at hspec
+  obtain ⟨h1, h2, h3, _⟩ := hspec
+  unfold metricRaw
+  rw [metricRows_eq]
+  refine ⟨?_, h1, ?_⟩
+  · rw [h2]
+    have := allItems_length street emd kmeans 0 kmeans (by omega)
+    simp only [List.length_nil, Nat.zero_add]
+    cases hK : kmeans.length with
+    | zero => rw [hK] at this; omega
+    | succ n =>
+      rw [hK] at this
+      simp only [Nat.add_sub_cancel]
+      have e : (n + 1) * (n + 1) = (n + 1) * n + (n + 1) := by ring
+      rw [e] at this; omega
+  · intro i j x y hx hy hlt
+    have := allItems_mem street emd kmeans 0 kmeans i x y j hx hy (by omega)
+    rw [Nat.zero_add] at this
+    exact h3 _ this
+
+omit [Arith α] in
+/-- **symmetric by construction**: the metric cannot distinguish `(a, b)` from `(b, a)` -/
+theorem C13_metric_symmetric (m : Metric α) (a b : Nat) : m.lookup a b = m.lookup b a := by
+  unfold Metric.lookup; rw [pairKey_comm]
+
+/-- the stored value itself is symmetric in the two centroids (over ℝ) -/
+theorem C13_symDist_symm (emd : κ → κ → ℝ) (x y : κ) : symDist emd x y = symDist emd y x := by
+  simp only [symDist, R_div, R_add]; rw [add_comm]
+
+theorem mem_foldIns (es acc : List (Nat × α)) :
+    ∀ e ∈ es.foldl (fun acc e => mapInsert e.1 e.2 acc) acc, e ∈ acc ∨ ∃ e' ∈ es, e'.2 = e.2 ∧ e'.1 = e.1 := by
+  induction es generalizing acc with
+  | nil => intro e he; left; exact he
+  | cons x xs ih =>
+    intro e he
+    rcases ih (mapInsert x.1 x.2 acc) e he with h | ⟨e', he', h⟩
+    · rcases mapInsert_keys x.1 x.2 acc e h with hk | hk
+      · -- the inserted entry
+        have : e = (x.1, x.2) ∨ e ∈ acc := by
+          clear ih he
+          induction acc with
+          | nil => simp [mapInsert] at h; left; exact h
+          | cons z zs ihz =>
+            unfold mapInsert at h
+            split at h
+            · rcases List.mem_cons.mp h with h | h
+              · left; exact h
+              · right; simp [h]
+            · split at h
+              · rcases List.mem_cons.mp h with h | h
+                · left; exact h
+                · right; exact h
+              · rcases List.mem_cons.mp h with h | h
+                · right; simp [h]
+                · rcases ihz h with h | h
+                  · left; exact h
+                  · right; simp [h]
+        rcases this with rfl | h'
+        · right; exact ⟨x, by simp, rfl, rfl⟩
+        · left; exact h'
+      · left; exact hk
+    · right; exact ⟨e', by simp [he'], h⟩
+
+/-- **non-negative, scaled to a maximum of one (or all zero)** — over ℝ, for a non-negative `emd`:
+    every entry of `Layer::metric` lies in `[0, 1]`; if some symmetrised distance reaches
+    `MIN_POSITIVE` an entry equals `1`; if all are `0`, all entries are `0`. -/
+theorem C13_metric_max (street : Nat) (emd : κ → κ → ℝ) (kmeans : List κ) (hemd : ∀ x y, 0 ≤ emd x y) :
+    (∀ e ∈ (metric street emd kmeans).entries, 0 ≤ e.2 ∧ e.2 ≤ 1) ∧
+    ((∃ e ∈ metricRaw street emd kmeans, minPosR ≤ e.2) → ∃ e ∈ (metric street emd kmeans).entries, e.2 = 1) ∧
+    ((∀ e ∈ metricRaw street emd kmeans, e.2 = 0) → ∀ e ∈ (metric street emd kmeans).entries, e.2 = 0) := by
+  have hpos : ∀ e ∈ metricRaw street emd kmeans, 0 ≤ e.2 := by
+    intro e he
+    unfold metricRaw at he
+    rw [metricRows_eq] at he
+    rcases mem_foldIns _ _ e he with h | ⟨e', he', h, _⟩
+    · simp at h
+    · rw [← h]
+      -- every item value is a symDist
+      have hall : ∀ (all : List κ) (i : Nat) (xs : List κ), ∀ e ∈ allItems street emd all i xs, 0 ≤ e.2 := by
+        intro all i xs
+        induction xs generalizing i with
+        | nil => simp [allItems]
+        | cons x xs ih =>
+          intro e he
+          simp only [allItems, List.mem_append] at he
+          rcases he with he | he
+          · have hrow : ∀ (j : Nat) (ys : List κ), ∀ e ∈ rowItems street emd i x j ys, 0 ≤ e.2 := by
+              intro j ys
+              induction ys generalizing j with
+              | nil => simp [rowItems]
+              | cons y ys ihy =>
+                intro e he
+                simp only [rowItems, List.mem_append] at he
+                rcases he with he | he
+                · split at he
+                  · simp only [List.mem_singleton] at he
+                    rw [he]
+                    simp only [symDist, R_div, R_add, R_ofNat]
+                    exact div_nonneg (add_nonneg (hemd _ _) (hemd _ _)) (Nat.cast_nonneg _)
+                  · simp at he
+                · exact ihy _ e he
+            exact hrow 0 all e he
+          · exact ih _ e he
+      exact hall kmeans 0 kmeans e' he'
+  have := Metric.normalize_spec (metricRaw street emd kmeans) hpos
+  exact ⟨this.2.1, this.2.2.1, this.2.2.2⟩
+
+end metric
+
+/-- non-vacuity of `C13_next_spec` / `C13_next_conserves`: three points, two centroids at "positions"
+    2 and 6 (distance = |mass − position|), `k = 3` allocated centroids: points of mass 2 and 3 go to
+    centroid 0 (mass 3 ties between |3−2| and … no: |3−2| = 1 < |3−6| = 3), the point of mass 5 to
+    centroid 1; the third allocated centroid stays empty; counts of bucket 5 add up (2 + 1 = 3). -/
+example :
+    next 3 (tcmp (β := Nat)) (fun (p : Hist) (c : Nat) => if p.mass ≤ c then c - p.mass else p.mass - c) id
+      [⟨2, [(5, 2)]⟩, ⟨5, [(7, 5)]⟩, ⟨3, [(5, 1), (9, 2)]⟩] [2, 6]
+    = some [⟨5, [(5, 3), (9, 2)]⟩, ⟨5, [(7, 5)]⟩, ⟨0, []⟩] := by decide
+
+/-- a tie (point of mass 4 is at distance 2 from both centroids) goes to the FIRST centroid -/
+example :
+    next 2 (tcmp (β := Nat)) (fun (p : Hist) (c : Nat) => if p.mass ≤ c then c - p.mass else p.mass - c) id
+      [⟨4, [(1, 4)]⟩] [2, 6] = some [⟨4, [(1, 4)]⟩, ⟨0, []⟩] := by decide
+
+/-- non-vacuity of `C13_lookup_spec` -/
+example :
+    lookup 2 (tcmp (β := Nat)) (fun (p : Hist) (c : Nat) => if p.mass ≤ c then c - p.mass else p.mass - c)
+      [⟨2, [(5, 2)]⟩, ⟨5, [(7, 5)]⟩] [2, 6] ["iso0", "iso1", "iso2"]
+    = some [("iso0", absCode 2 0), ("iso1", absCode 2 1)] := by decide
+
+/-- non-vacuity of `C13_metric_entries`: three centroids on the turn street (hypothesis discharged
+    by evaluation): three entries, and the pair (2, 0) carries the symmetrised value -/
+example : 2 * (metricRaw 2 (fun (x y : ℝ) => |x - y|) [1, 2, 4]).length = 3 * (3 - 1) :=
+  (C13_metric_entries 2 _ [1, 2, 4] (by decide +kernel)).1
+
+example : (metricRaw 2 (fun (x y : ℝ) => |x - y|) [1, 2, 4]).lookup (keyOf 2 2 0)
+    = some (symDist (fun (x y : ℝ) => |x - y|) 4 1) :=
+  (C13_metric_entries 2 _ [1, 2, 4] (by decide +kernel)).2.2 2 0 4 1 rfl rfl (by omega)
+
+/-- the pair keys of three turn buckets do not collide -/
+example : (layerKeys 2 3).Nodup := by decide +kernel
 
 /-- non-vacuity: ties go to the first minimum (index 1, not 2), as `Iterator::min_by` does -/
 example : argmin (tcmp (β := Nat)) [7, 3, 3, 5] = some (1, 3) := by decide
